@@ -107,7 +107,7 @@ def live_connectors(sim):
     return out
 
 
-def cooperate(sim, deadline, peer_hold=None, close_inherited=True, bgp_id=PEER_ID, caps=None, as4=None):
+def cooperate(sim, deadline, peer_hold=None, close_inherited=True, bgp_id=PEER_ID, caps=None, as4=None, open_delay=0):
     """Behave as a correct peer until the agent reports ESTABLISHED or virtual time passes
     `deadline`.  Returns the virtual time at which ESTABLISHED was reached, or None.
     Inherited live connections that are not in a clean handshake position are closed first."""
@@ -120,6 +120,7 @@ def cooperate(sim, deadline, peer_hold=None, close_inherited=True, bgp_id=PEER_I
             r.peer_close(c, clean=True)
             r.settle(fire_due=True)
     progress = {}     # cid -> 'open-sent' | 'ka-sent'
+    due = {}          # cid -> virtual time at which the (slow) peer answers the agent's OPEN
     guard = 0
     while sim.now <= deadline and guard < 2000:
         guard += 1
@@ -135,6 +136,8 @@ def cooperate(sim, deadline, peer_hold=None, close_inherited=True, bgp_id=PEER_I
         for c in live:
             st = progress.get(c.id)
             agent_open = any(b[18:19] == b'\x01' for _, b in c.transport.written if len(b) >= 19)
+            if st is None and agent_open and open_delay and sim.now < due.setdefault(c.id, sim.now + open_delay):
+                continue          # a slow peer: its OPEN comes open_delay seconds after the agent's
             if st is None and agent_open:
                 r.peer_send(c, peer_open(sim, hold=peer_hold, bgp_id=bgp_id, caps=caps, as4=as4))
                 r.settle(fire_due=True)
@@ -148,6 +151,9 @@ def cooperate(sim, deadline, peer_hold=None, close_inherited=True, bgp_id=PEER_I
         if acted:
             continue
         t = r.next_time()
+        waits = [x for cid, x in due.items() if x > sim.now and progress.get(cid) is None and any(cid == c.id for c in live)]
+        if waits and (t is None or min(waits) < t):
+            t = min(waits)
         if t is None or t > deadline:
             break
         r.advance_to(t)
